@@ -100,12 +100,12 @@ func TestC07IDWrap(t *testing.T) {
 					prev = id
 				}
 			}
-			// one full round after the crossing
+			// one full round after the crossing (everything sent so far is known to be transmitted)
+			n := p.SentCount() + 1
 			if err := on.Send([]byte("last")); err != nil {
 				fail("send", "last survey: %v", err)
 				return
 			}
-			n := p.SentCount() + 1
 			if !p.WaitSent(n, 3*time.Second) {
 				fail("not-sent", "the last survey was not transmitted within 3s")
 				return
